@@ -287,12 +287,12 @@ def run(ctx):
                 bump("index/%s" % kind)
     # histories: (a) a 0/1 index list and a boolean mask of the same length are different selections, whichever was used first;
     #            (b) kernel values on NumPy inputs refilled in place are those of the CURRENT rows
-    for first, second in (([0, 1], np.array([False, True])), (np.array([False, True]), [0, 1]), ([1, 0], np.array([True, False])),
-                          (np.array([True, False]), [1, 0]), ([1, 1, 0], np.array([True, True, False]))):
+    for first, second in (([0, 1], [False, True]), ([False, True], [0, 1]), ([1, 0], [True, False]), ([True, False], [1, 0]),
+                          ([1, 1, 0], [True, True, False]), ([0, 1], np.array([False, True])), (np.array([True, False]), [1, 0])):
         w_ = len(first)
         for adv in (first, second):
             got = np.asarray(mu.select_active_dims(jnp.arange(w_, dtype=float) + 10.0, adv)).tolist()
-            want = (np.arange(w_, dtype=float) + 10.0)[..., adv].tolist()
+            want = (np.arange(w_, dtype=float) + 10.0)[..., np.asarray(adv)].tolist()
             bump("index/history")
             if got != want:
                 ctx.violation("C05|select_active_dims|history", "select_active_dims differs from NumPy indexing after an equal-looking active_dims was used",
@@ -303,7 +303,7 @@ def run(ctx):
         for adv in (first, second):
             kk = mcov_.Matern52(1.25, active_dims=adv)
             got = np.asarray(kk(jnp.asarray(Xh), jnp.asarray(Yh)))
-            Xs, Ys = Xh[..., adv], Yh[..., adv]
+            Xs, Ys = Xh[..., np.asarray(adv)], Yh[..., np.asarray(adv)]
             dd = np.sqrt(((Xs[:, None, :] - Ys[None, :, :]) ** 2).sum(-1) + 1e-12)
             q_ = np.sqrt(5.0) * dd / 1.25
             want = (1 + q_ + q_ * q_ / 3.0) * np.exp(-q_)
@@ -321,13 +321,13 @@ def run(ctx):
         kk.diag(xbuf)
         ybuf[...] = Yh[::-1] + 0.125
         xbuf[...] = Xh[::-1] - 0.25
-        idxb = np.random.default_rng(ctx.seed + 5).integers(0, 3, size=1100)
+        idxb = np.random.default_rng(ctx.seed + 5).integers(0, 3, size=5000)
         Kbig, Ksmall = np.asarray(kk(Xh[idxb], Yh)), np.asarray(kk(Xh, Yh))
         bump("many-rows")
-        if Kbig.shape != (1100, 4) or not np.allclose(Kbig, Ksmall[idxb], rtol=1e-12, atol=1e-15):
-            ctx.violation("C05|many-rows", "among 1100 rows, a row of the Gram matrix differs from the same row in a small batch",
-                          {"kernel": repr(kk), "x": Xh.tolist(), "y": Yh.tolist(), "rows": "x[default_rng(verif_seed + 5).integers(0, 3, 1100)]",
-                           "max_difference": float(np.abs(Kbig - Ksmall[idxb]).max()) if Kbig.shape == (1100, 4) else "shape"})
+        if Kbig.shape != (5000, 4) or not np.allclose(Kbig, Ksmall[idxb], rtol=1e-12, atol=1e-15):
+            ctx.violation("C05|many-rows", "among 5000 rows, a row of the Gram matrix differs from the same row in a small batch",
+                          {"kernel": repr(kk), "x": Xh.tolist(), "y": Yh.tolist(), "rows": "x[default_rng(verif_seed + 5).integers(0, 3, 5000)]",
+                           "max_difference": float(np.abs(Kbig - Ksmall[idxb]).max()) if Kbig.shape == (5000, 4) else "shape"})
         bump("history/buffer-reuse")
         if not (np.array_equal(np.asarray(kk(xbuf, ybuf)), np.asarray(kk(np.array(xbuf, copy=True), np.array(ybuf, copy=True))))
                 and np.array_equal(np.asarray(kk.diag(xbuf)), np.asarray(kk.diag(np.array(xbuf, copy=True))))):
